@@ -145,7 +145,7 @@ class FlowGen(object):
             self.line([self.mark(), ("return",)])
             self.items = saved
         elif x < 0.84:
-            k = r.randint(1, 3)
+            k = r.randint(1, 5)
             ts = [Target() for _ in range(k)]
             end = Target()
             gosub = r.random() < 0.4
